@@ -483,13 +483,20 @@ impl<'a> Out<'a> {
         }
         let needs_escape = value.contains("\"\"\"");
         // a trailing quote would merge with the closing delimiter; a trailing backslash is fine
-        let ends_with_quote = value.ends_with('"');
+        let ends_with_quote = value.ends_with('"') || value.ends_with('\\');
         let cooked_ok = self.opts.allow_cooked_block;
         if (needs_escape || ends_with_quote) && !cooked_ok {
             return None;
         }
         let body_raw = value.replace("\"\"\"", "\\\"\"\"");
-        if cooked_ok && self.chance(1, 2) {
+        // forms that put a line break after the opening delimiter make the value's first
+        // line an ordinary line: its indentation then takes part in the common indent
+        let first_indent = lines[0].chars().take_while(|c| *c == ' ' || *c == '\t').count();
+        let newline_forms_ok = first_indent == 0;
+        if (ends_with_quote || value.starts_with('"')) && !newline_forms_ok {
+            return None;
+        }
+        if cooked_ok && newline_forms_ok && self.chance(1, 2) {
             // cooked form: indentation + surrounding blank lines
             let ind = 1 + self.below(4);
             let pad: String = " ".repeat(ind);
